@@ -33,9 +33,10 @@ type Inst struct {
 	// value per key.
 	Keys   []string   `json:"keys"`
 	Tuples [][]string `json:"tuples"`
-	// OddKeys/OddVals, when OddKeys != nil, is one more attribute set with a
+	// OddKeys/OddVals, when Odd is set, is one more attribute set with a
 	// DIFFERENT key set; it is addressed as tuple index len(Tuples). Cases
 	// that contain one are only checked for "no panic" (soundness note).
+	Odd     bool     `json:"odd,omitempty"`
 	OddKeys []string `json:"odd_keys,omitempty"`
 	OddVals []string `json:"odd_vals,omitempty"`
 	// Obs[r][t] is what the callback of an observable instrument reports in
@@ -278,6 +279,7 @@ func genInst(t *rapid.T, idx, base, nscopes, rounds int, prev *Inst) Inst {
 		}
 	}
 	if rapid.IntRange(0, 39).Draw(t, "odd") == 17 {
+		in.Odd = true
 		in.OddKeys = rapid.SliceOfNDistinct(rapid.SampledFrom(append([]string{"odd"}, attrKeys...)), 0, 3, rapid.ID[string]).Draw(t, "oddkeys")
 		if sameStringSet(in.OddKeys, in.Keys) {
 			in.OddKeys = append(in.OddKeys, "odd2")
@@ -306,7 +308,7 @@ func genInst(t *rapid.T, idx, base, nscopes, rounds int, prev *Inst) Inst {
 
 func (in Inst) ntuples() int {
 	n := len(in.Tuples)
-	if in.OddKeys != nil {
+	if in.Odd {
 		n++
 	}
 	return n
